@@ -686,6 +686,39 @@ def result_forwarding(ctx):
                 ctx.decided(tag + "/own-table", "schema", a[4] == tn, witness="table %r, expected %r" % (a[4], tn))
 
 
+@unit("C01", "circ_pump/slack_mass_pinned", functions=["pandapipes.component_models.abstract_models.circulation_pump:CirculationPump.adaption_after_derivatives_hydraulic"],
+      engine="E2")
+def circ_pump_slack_mass(ctx):
+    """the flow junction of a circulation pump is pressure-fixed; unless an external grid makes it a variable-mass slack
+    (VAR_MASS_SLACK), its slack mass flow is pinned to 0 -- the loop is closed, what the pump delivers is its branch flow;
+    every other node keeps its slack mass flow"""
+    ctx.assume("A1", "A4", "A6", "A7")
+    from contracts.C03 import World, comp_class
+    CPA_ = "pandapipes.component_models.abstract_models.circulation_pump"
+    cref = comp_class("circulation_pump_mass_component", "CirculationPumpMass")
+    w = World(cref, "circ_pump_mass", 1)
+    paths = w.run(ctx, CPA_ + ":CirculationPump.adaption_after_derivatives_hydraulic")
+    ok = len(paths) == 1 and paths[0].exc is None
+    ctx.decided("single-path", "cover", ok, witness=str([str(p.exc) for p in paths]))
+    if not ok:
+        return
+    N_VMS = K.const(ND, "VAR_MASS_SLACK")
+    bp0, np0 = w.spec.objs["branch_pit"], w.spec.objs["node_pit"]
+    npit = paths[0].args[0][3]
+    k, n, k2 = z3.Int("k"), z3.Int("n!node"), z3.Int("k2")
+    tn = lambda r: V.I(bp0.f(r, B_TO_NODE))
+    fixed_only = lambda r: V.R(np0.f(tn(r), N_VMS)) == 0
+    req = w.req() + list(paths[0].facts)
+    ctx.ob("flow-node-without-external-grid-has-zero-slack-mass", "ensures", req + [k >= w.f, k < w.t, fixed_only(k)],
+           K.eq_val(npit.f(tn(k), N_MDOTSLACKINIT), 0))
+    ctx.ob("other-nodes-keep-their-slack-mass", "frame",
+           req + [n >= 0, n < w.spec.NN, z3.ForAll([k2], z3.Implies(z3.And(k2 >= w.f, k2 < w.t, fixed_only(k2)), tn(k2) != n))],
+           K.eq_val(npit.f(n, N_MDOTSLACKINIT), np0.f(n, N_MDOTSLACKINIT)))
+    c = z3.Int("c!col")
+    ctx.ob("other-columns-untouched", "frame", req + [n >= 0, n < w.spec.NN, c >= 0, c < NCN, c != N_MDOTSLACKINIT],
+           K.eq_val(npit.f(n, c), np0.f(n, c)))
+
+
 @unit("C01", "bounded/mass_balance", functions=["pandapipes.pipeflow:pipeflow"], engine="bounded")
 def mass_balance_bounded(ctx):
     """property-level bounded stand-in (and the fallback replay of this property's refuted obligations): whole
